@@ -12,9 +12,9 @@ import (
 	fiberrecover "github.com/gofiber/fiber/v2/middleware/recover"
 	"github.com/junioryono/godi/v4"
 	godifiber "github.com/junioryono/godi/v4/fiber"
-	"github.com/valyala/fasthttp"
 	"github.com/junioryono/godi/v4/zzverif/kit"
 	"github.com/junioryono/godi/v4/zzverif/vrt"
+	"github.com/valyala/fasthttp"
 )
 
 var errMw = errors.New("middleware failed")
@@ -39,7 +39,7 @@ type reqLog struct {
 // H_Fiber: one configuration of ScopeMiddleware + Handle, two sequential requests.
 func H_Fiber() {
 	nmw := vrt.Pick("nmw", 0, 2)
-	failAt := vrt.Pick("fail", -1, nmw-1)     // index of the failing middleware
+	failAt := vrt.Pick("fail", -1, nmw-1) // index of the failing middleware
 	customErr := vrt.Pick("customErr", 0, 1) == 1
 	outcome := vrt.Pick("outcome", 0, 2)        // 0 ok, 1 handler panics, 2 handler returns an error
 	useHandle := vrt.Pick("handle", 0, 1) == 1  // the handler is godihttp.Handle(...)
@@ -153,6 +153,18 @@ func H_Fiber() {
 	}
 	app.Get("/x", final)
 
+	// a second middleware instance, configured AFTER the one that serves the
+	// requests and never used: instances must not share configuration state
+	decoyRan := 0
+	if vrt.Pick("twoinst", 0, 1) == 1 {
+		var dopts []godifiber.Option
+		for k := 0; k < 2; k++ {
+			dopts = append(dopts, godifiber.WithMiddleware(func(s godi.Scope, fc *fiber.Ctx) error { decoyRan++; return nil }))
+		}
+		_ = godifiber.ScopeMiddleware(p, dopts...)
+	}
+	vrt.Quiesce()
+	baseG := vrt.Goroutines()
 	var seenScopes []godi.Scope
 	var seenS1 []*kit.Inst
 	for reqNo := 0; reqNo < 2; reqNo++ {
@@ -255,6 +267,9 @@ func H_Fiber() {
 		if sc != nil {
 			_, e := sc.Get(kit.TypeS[1])
 			vrt.Assert(errors.Is(e, godi.ErrScopeDisposed), "C16.scope_not_closed", "the request's scope is still open after the request ended")
+			// C14 at the level of the request cycle: nothing of the request stays behind
+			vrt.Assert(errors.Is(e, godi.ErrScopeDisposed), "C14.request_scope_left_open", "the request ended (on whatever path) but its scope was never closed")
+			vrt.Assert(sc.Context().Err() != nil, "C14.request_scope_context_live", "the request ended but the context of its scope is not cancelled")
 			for _, prev := range seenScopes {
 				vrt.Assert(prev != sc, "C16.scope_reused", "two requests shared a scope")
 			}
@@ -273,6 +288,9 @@ func H_Fiber() {
 			}
 		}
 		vrt.Assert(lg.closeErrH == 0, "C16.close_error", "closing the request scope reported an error")
+		vrt.Assert(decoyRan == 0, "C16.foreign_middleware_ran", "a middleware configured for another ScopeMiddleware instance ran", decoyRan, "times")
+		vrt.Quiesce()
+		vrt.Assert(vrt.Goroutines() == baseG, "C14.request_goroutine_left", "goroutines after the request:", vrt.Goroutines(), "before the first request:", baseG)
 	}
 	p.Close()
 	vrt.Quiesce()
